@@ -387,7 +387,7 @@ def _c16_with_computed(rng, tier):
     # signed contracts: valid signatures, tampered ones, and every value of the recovery-id byte
     c19, _ = gen_types.c19_cases(rng, tier)
     cases += [c for c in c19 if c.startswith("chksigned ")]
-    kinds = [None, "dc", "cd", "cc", "dd_pred", "dd"]
+    kinds = [None, "dc", "cd", "cc", "dd_pred", "dd", "c1c2"]
     for i in range(36 if tier == "quick" else 600):
         sols, preds, pbytes = gen_check.c04_set(rng, kinds[i % len(kinds)])
         base = gen_check.check_case("twopass", rng.random() < 0.5, sols, preds, pbytes, [])
